@@ -775,6 +775,11 @@ static int _fetch_and_process_packet(OggVorbis_File *vf,
               samples=(vorbis_synthesis_pcmout(&vf->vd,NULL)<<hs);
 
               granulepos-=samples;
+              if(granulepos<0)granulepos=0; /* half-rate decode cannot
+                                               trim an odd count from
+                                               the beginning; the
+                                               position stays inside
+                                               the link */
               for(i=0;i<link;i++)
                 granulepos+=vf->pcmlengths[i*2+1];
               vf->pcm_offset=granulepos;
